@@ -137,24 +137,29 @@ CONTENT_ID = {content_for(i): i for i in list(FILES_IN.values()) + list(FILES_OU
 MARKERS = [("<%02d>" % i).encode() for i in list(FILES_IN.values()) + list(FILES_OUT.values())]
 
 
-class Tree:
-    """The fixture tree of StaticPath.tla materialised under /tmp/<scratch>/ (two levels deep, like
-    the specification's /tmp/P).  `outside` adds the files next to the root."""
+class Trees:
+    """The fixture tree of StaticPath.tla materialised twice under one scratch directory
+    /tmp/<scratch>/: side "w" with and side "n" without the files next to the root."""
 
-    def __init__(self, outside):
-        self.outside = outside
-        self.base = tempfile.mkdtemp(prefix="vc26%s-" % ("o" if outside else "n"), dir="/tmp")
+    def __init__(self):
+        self.base = tempfile.mkdtemp(prefix="vc26-", dir="/tmp")
         self.name = os.path.basename(self.base)
-        self.root = os.path.join(self.base, "r")
-        os.makedirs(self.root)
-        for d in DIRS_IN:
-            os.makedirs(os.path.join(self.root, *d), exist_ok=True)
-        for p, fid in FILES_IN.items():
-            self._write(os.path.join(self.root, *p), fid)
-        if outside:
-            for p, fid in FILES_OUT.items():
-                self._write(os.path.join(self.base, *p), fid)
-        self.rootp = [chars("tmp"), chars(self.name)]
+        self.root = {}
+        for outside, side in ((True, "w"), (False, "n")):
+            sb = os.path.join(self.base, side)
+            root = self.root[outside] = os.path.join(sb, "r")
+            os.makedirs(root)
+            for d in DIRS_IN:
+                os.makedirs(os.path.join(root, *d), exist_ok=True)
+            for p, fid in FILES_IN.items():
+                self._write(os.path.join(root, *p), fid)
+            if outside:
+                for p, fid in FILES_OUT.items():
+                    self._write(os.path.join(sb, *p), fid)
+
+    @staticmethod
+    def side(outside):
+        return "w" if outside else "n"
 
     @staticmethod
     def _write(path, fid):
@@ -166,21 +171,33 @@ class Tree:
     def remove(self):
         shutil.rmtree(self.base, ignore_errors=True)
 
-    def subst(self, raw):
-        """Replace the placeholder directory name P of generated paths by the real scratch name
-        (whole segments only; separators are '/', %2F, %2f)."""
+    def subst(self, raw, outside):
+        """Replace the placeholder names P (scratch directory) and S (side) of generated paths by
+        the real names (whole segments only; separators are '/', %2F, %2f)."""
         seps = (47, 256 + 47, 512 + 47)
         out, seg = [], []
-        real = chars(self.name)
+        real = {(80,): chars(self.name), (83,): chars(self.side(outside))}
         for u in list(raw) + [None]:
             if u is None or u in seps:
-                out.extend(real if seg == [80] else seg)
+                out.extend(real.get(tuple(seg), seg))
                 if u is not None:
                     out.append(u)
                 seg = []
             else:
                 seg.append(u)
         return out
+
+    def abs_root_units(self, outside):
+        out = []
+        for nm in ("tmp", self.name, self.side(outside), "r"):
+            out.append(256 + 47)
+            out.extend(chars(nm))
+        return out
+
+
+def enc_name(name):
+    """TLC cfg files cannot hold sequences: a name travels as the set {1000 * i + c_i}."""
+    return "{%s}" % ", ".join(str(1000 * (i + 1) + ord(c)) for i, c in enumerate(name))
 
 
 def static_app(root, dflt, pattern=r"/static/(.*)"):
@@ -191,9 +208,9 @@ def static_app(root, dflt, pattern=r"/static/(.*)"):
     return web.Application([(pattern, web.StaticFileHandler, kw)])
 
 
-def static_request(tree, dflt, method, raw, prefix="/static/", pattern=r"/static/(.*)", headers=()):
-    key = ("static", tree.base, dflt, pattern)
-    return http().request(key, lambda: static_app(tree.root, dflt, pattern), method, prefix + wire(raw), headers)
+def static_request(root, dflt, method, raw, prefix="/static/", pattern=r"/static/(.*)", headers=()):
+    key = ("static", root, dflt, pattern)
+    return http().request(key, lambda: static_app(root, dflt, pattern), method, prefix + wire(raw), headers)
 
 
 def project_static(method, resp):
@@ -262,26 +279,235 @@ def read_dump_fast(fn, variables):
     return out
 
 
-def mc_states(ctx, spec_dir, module, cfg, overrides=None, required_actions=(), variables=("cfg", "step"), **kw):
-    """One TLC run that both model-checks the specification (invariants, coverage) and dumps every
-    reachable state; for the function-like specifications of this family each state after a request
-    is one test case carrying TLC's expected response.  Returns [(extra, [step])]."""
+def mc_states(ctx, spec_dir, module, cfg, overrides=None, required_actions=(), variables=("cfg", "step"), timeout=None):
+    """One TLC run that both model-checks the specification (all INVARIANT lines of the cfg) and
+    dumps every reachable state; for the function-like specifications of this family each state
+    after a request is one test case carrying TLC's expected response.  Returns [(extra, [step])].
+
+    Mirrors Ctx.mc but without `-coverage 1`: TLC's coverage mode disables the memoisation of LET
+    definitions, which makes the character-level folds of these modules orders of magnitude slower
+    (StaticRange: 7 s without, > 600 s with).  Non-vacuity is established from the dump instead:
+    the number of reachable states produced by each action (`step.act`) is recorded in
+    coverage_by_action and every name in required_actions must occur."""
     import time
+    from . import VERIF, tlc
+    from .framework import make_cfg, canon, jdump, Machinery
+    sd = os.path.join(VERIF, "specs", spec_dir)
+    cfgp = os.path.join(sd, cfg)
+    if overrides:
+        cfgp = make_cfg(cfgp, overrides, ctx.scratch, "%s_%d_%s" % (module, len(os.listdir(ctx.scratch)), os.path.basename(cfg)))
     dump = os.path.join(ctx.scratch, "%s_mcdump_%d" % (module, len(os.listdir(ctx.scratch))))
     t0 = time.time()
-    r = ctx.mc(spec_dir, module, cfg, overrides=overrides, required_actions=required_actions, dump=dump, **kw)
+    r = tlc.run(sd, module, cfgp, timeout=timeout or ctx.pick(300, 1500), dump=dump)
+    ov = {k: (sorted(v) if isinstance(v, (set, frozenset)) else v) for k, v in (overrides or {}).items()}
+    ctx.cov["states"] += r.distinct
+    ctx.cov["transitions"] += r.generated
+    ctx.cov["mc_runs"].append({"module": module, "cfg": cfg, "overrides": ov, "distinct": r.distinct,
+                               "generated": r.generated, "depth": r.depth, "wall_s": round(r.wall_s, 2), "ok": r.ok})
+    ctx.cov["checker_cmd"].append("tlc -dump -config %s %s" % (cfg, module))
+    if not r.ok:
+        states = tlc.parse_error_trace(r.violation["text"])
+        ctx.violation({"kind": "spec", "module": module, "name": r.violation["name"], "what": r.violation["kind"]},
+                      {"tlc_trace": canon([[a, s] for a, s in states]) or r.violation["text"][:6000]})
     fn = dump + ".dump"
-    states = read_dump_fast(fn, set(variables))
-    os.remove(fn)
+    states = read_dump_fast(fn, set(variables)) if os.path.exists(fn) else []
+    if os.path.exists(fn):
+        os.remove(fn)
     items = []
+    acts = {}
     for st in states:
-        if st["step"]["act"] == "init":
+        a = st["step"]["act"]
+        acts[a] = acts.get(a, 0) + 1
+        if a == "init":
             continue
         extra = {k: v for k, v in st.items() if k != "step"}
         items.append((extra, [st["step"]]))
-    from .framework import jdump
+    for a, k in acts.items():
+        key = module + "." + a
+        ctx.cov["coverage_by_action"][key] = ctx.cov["coverage_by_action"].get(key, 0) + k
+    for a in required_actions:
+        if not acts.get(a):
+            raise Machinery("vacuity: no reachable state produced by action %s of %s under %s" % (a, module, cfg))
     items.sort(key=lambda ep: jdump(ep))
     ctx.cov["gen_runs"] = ctx.cov.get("gen_runs", []) + [
-        {"module": module, "cfg": cfg, "overrides": {k: (sorted(v) if isinstance(v, (set, frozenset)) else v) for k, v in (overrides or {}).items()},
-         "states": r.distinct, "cases": len(items), "wall_s": round(time.time() - t0, 2)}]
+        {"module": module, "cfg": cfg, "overrides": ov, "states": r.distinct, "cases": len(items), "wall_s": round(time.time() - t0, 2)}]
     return items
+
+
+# ----------------------------------------------------------------------------- C27 range files
+MTIME = 1000000000
+
+
+def range_content(size, k):
+    return bytes((k + 7 * i) % 251 for i in range(size))
+
+
+class RangeFiles:
+    """One file per (size, k) in a scratch directory under /tmp; fixed mtime."""
+
+    def __init__(self):
+        self.base = tempfile.mkdtemp(prefix="vc27-", dir="/tmp")
+        self.made = set()
+
+    def ensure(self, size, k):
+        name = "f%d_%d.bin" % (size, k)
+        if (size, k) not in self.made:
+            p = os.path.join(self.base, name)
+            if not os.path.exists(p):
+                tmp = p + ".%d.tmp" % os.getpid()
+                with open(tmp, "wb") as f:
+                    f.write(range_content(size, k))
+                os.utime(tmp, (MTIME, MTIME))
+                os.rename(tmp, p)
+            self.made.add((size, k))
+        return name
+
+    def remove(self):
+        shutil.rmtree(self.base, ignore_errors=True)
+
+
+_ETAGS = {}
+
+
+def range_request(files, size, k, method, has_range, value, inm, ims):
+    """One GET/HEAD for the (size, k) file with the abstract validators made concrete."""
+    import email.utils
+    name = files.ensure(size, k)
+    key = ("range", files.base)
+    factory = lambda: static_app(files.base, False)
+    hdrs = []
+    if inm != "none":
+        etag = _ETAGS.get((files.base, name))
+        if etag is None:
+            r = http().request(key, factory, "GET", "/static/" + name)
+            etag = _ETAGS[(files.base, name)] = header(r[1], "Etag") if r[0] != "noresp" else None
+        if not isinstance(etag, str):
+            return ("noresp", b"no etag")
+        hdrs.append(("If-None-Match", {"match": etag, "differ": '"nomatch"', "star": "*", "weak": "W/" + etag,
+                                        "list": '"x", ' + etag, "listdiffer": '"x", W/"y"'}[inm]))
+    if ims != "none":
+        hdrs.append(("If-Modified-Since", {"before": email.utils.formatdate(MTIME - 1, usegmt=True),
+                                            "equal": email.utils.formatdate(MTIME, usegmt=True),
+                                            "after": email.utils.formatdate(MTIME + 3600, usegmt=True),
+                                            "garbage": "yesterday"}[ims]))
+    if has_range:
+        hdrs.append(("Range", text_of(value)))
+    return http().request(key, factory, method, "/static/" + name, hdrs)
+
+
+def project_range(resp):
+    import re
+    if resp[0] == "noresp":
+        return {"st": 0, "crk": "noresp", "a": 0, "b": 0, "n": 0, "cl": 0, "body": []}
+    code, hdrs, body = resp
+    cr = header(hdrs, "Content-Range")
+    crk, a, b, n = "none", 0, 0, 0
+    if cr is not None:
+        m = re.fullmatch(r"bytes ([0-9]+)-([0-9]+)/([0-9]+)", cr) if isinstance(cr, str) else None
+        m2 = re.fullmatch(r"bytes \*/([0-9]+)", cr) if isinstance(cr, str) else None
+        if m:
+            crk, a, b, n = "range", int(m.group(1)), int(m.group(2)), int(m.group(3))
+        elif m2:
+            crk, n = "star", int(m2.group(1))
+        else:
+            crk = "bad"
+    cl = header(hdrs, "Content-Length")
+    cl = int(cl) if isinstance(cl, str) and cl.isascii() and cl.isdigit() else -1
+    if code == 304:
+        cl = 0
+    return {"st": code, "crk": crk, "a": a, "b": b, "n": n, "cl": cl, "body": list(body)}
+
+
+def parse_range_direct(value):
+    from tornado import httputil
+    try:
+        r = httputil._parse_request_range(text_of(value))
+    except Exception as e:          # an observation
+        return {"ignored": "exc:" + type(e).__name__}
+    return {"ignored": r is None or r == (None, None)}
+
+
+def range_features(value):
+    """Canonical low-cardinality description of a Range value (for violation signatures only)."""
+    import re
+    t = text_of(value).strip(" \t")
+    fs = set()
+    if t != t.strip():
+        fs.add("leadws")            # whitespace other than SP / HTAB around the value
+        t = t.strip()
+    m = re.match(r"bytes(\s*)=", t)
+    if not m:
+        return "unit"
+    if m.group(1):
+        fs.add("unitsp")
+    body = t[m.end():]
+    names = {"+": "plus", "_": "us", " ": "sp", "\t": "tab", ",": "comma", "\xa0": "nbsp", "=": "eq", ".": "dot"}
+    for ch in body:
+        if ch in "0123456789-":
+            continue
+        fs.add(names.get(ch, "nonascii" if ord(ch) > 127 else "other"))
+    d = body.count("-")
+    if d == 0:
+        fs.add("nodash")
+    elif d > 1:
+        fs.add("dashes")
+    return "+".join(sorted(fs)) or "plain"
+
+
+# ----------------------------------------------------------------------------- C28 redirects
+LOGIN_URLS = {"auth_rel": "/login", "auth_query": "/login?x=1", "auth_abs": "http://auth.test/login"}
+
+
+def slash_app(kind, static_root=None):
+    from tornado import web
+
+    if kind in ("removeslash", "addslash"):
+        deco = getattr(web, kind)
+
+        class H(web.RequestHandler):
+            @deco
+            def get(self):
+                self.write("ok")
+
+            @deco
+            def head(self):
+                pass
+
+            @deco
+            def post(self):
+                self.write("ok")
+        return web.Application([(r"/.*", H)])
+    if kind in ("static1", "static2"):
+        pattern = r"/(.*)" if kind == "static1" else r"/+(.*)"
+        return web.Application([(pattern, web.StaticFileHandler, {"path": static_root, "default_filename": "index.html"})])
+
+    class A(web.RequestHandler):
+        def get_current_user(self):
+            return None
+
+        @web.authenticated
+        def get(self):
+            self.write("secret")
+
+        @web.authenticated
+        def head(self):
+            pass
+
+        @web.authenticated
+        def post(self):
+            self.write("secret")
+    return web.Application([(r"/.*", A)], login_url=LOGIN_URLS[kind])
+
+
+def slash_request(kind, static_root, method, raw, hasq, q):
+    target = wire(raw) + ("?" + text_of(q) if hasq else "")
+    key = ("slash", kind, static_root)
+    hdrs = [("Content-Length", "0")] if method == "POST" else []
+    resp = http().request(key, lambda: slash_app(kind, static_root), method, target, hdrs)
+    if resp[0] == "noresp":
+        return {"st": 0, "loc": []}
+    code, h, _ = resp
+    loc = header(h, "Location")
+    if isinstance(loc, list):
+        return {"st": code, "loc": chars("<multiple Location headers>")}
+    return {"st": code, "loc": chars(loc) if loc is not None else []}
